@@ -29,11 +29,17 @@ class Incomplete(Exception):
 
 
 class Arr:
-    def __init__(self, name):
+    """array / pointer value: base name plus an element offset (pointer arithmetic, ++p)"""
+
+    def __init__(self, name, off=0):
         self.name = name
+        self.off = sp.Integer(off) if isinstance(off, int) else off
+
+    def shifted(self, d):
+        return Arr(self.name, sp.expand(self.off + d))
 
     def __repr__(self):
-        return "Arr(%s)" % self.name
+        return "Arr(%s)" % self.name if self.off == 0 else "Arr(%s+%s)" % (self.name, self.off)
 
 
 class Cell:
@@ -108,6 +114,8 @@ class Exec:
         self.atom_syms = {}
         self.atom_info = {}     # atom symbol -> ('zero', d) meaning d==0 | ('pos', e) meaning e>0 | ('exited', loop symbol)
         self.inline_depth = 0
+        self.frame_base = 0
+        self.retval = None
         self.cur_fn = fn
 
     # ---- atoms ---------------------------------------------------------------------------------
@@ -125,7 +133,10 @@ class Exec:
             raise Incomplete("comparison of non-scalar values")
         if op in ("==", "!="):
             d = sp.expand(a - b)
-            if d.is_number:
+            from sympy.core.function import AppliedUndef
+            if d == 0 and a.atoms(AppliedUndef) and not a.is_integer:
+                r = sp.Not(self.atom("isnan(%s)" % sp.sstr(sexp(a))))      # x == x is the NaN test of a value read from memory
+            elif d.is_number:
                 r = sp.true if d == 0 else sp.false
             else:
                 if d.as_ordered_terms()[0].as_coeff_Mul()[0] < 0:
@@ -244,7 +255,7 @@ class Exec:
         """element access base[idx] / base(idx)"""
         idx = sexp(self.scalar(idx, pc))
         if isinstance(base, Arr):
-            return Cell(base, (idx,))
+            return Cell(base, (sexp(idx + base.off),))
         if isinstance(base, Cell):
             return Cell(base.arr, base.idx + (idx,))
         if isinstance(base, TinyVal):
@@ -335,6 +346,8 @@ class Exec:
             if op == "+":
                 return self.scalar(v, pc)
             if op == "*":
+                if isinstance(v, Arr):
+                    return Cell(v, (sexp(v.off),))
                 return v
             raise Incomplete("unary operator " + op)
         if k == "Bin":
@@ -351,6 +364,11 @@ class Exec:
                 if isinstance(b, Cell):
                     b = self.read(b, pc)
                 return self.cmp(op, a, b)
+            if op in ("+", "-") and isinstance(a, Arr) and not isinstance(b, Arr):
+                d_ = self.scalar(b, pc)
+                return a.shifted(d_ if op == "+" else -d_)
+            if op == "+" and isinstance(b, Arr) and not isinstance(a, Arr):
+                return b.shifted(self.scalar(a, pc))
             return self.arith(op, self.scalar(a, pc), self.scalar(b, pc), n)
         if k == "Assign":
             return self.assign(n, env, pc)
@@ -497,6 +515,11 @@ class Exec:
         if callee in ("FEAT::Math::sqr", "FEAT::Math::abs", "FEAT::Math::sqrt") and len(n.get("a", [])) == 1:
             v = self.scalar(self.rv(self.ev(n["a"][0], env, pc), pc), pc)
             return {"sqr": v * v, "abs": sp.Abs(v), "sqrt": sp.sqrt(v)}[callee.rsplit("::", 1)[-1]]
+        if n.get("ccls") and n.get("ccls") == self.fn.cls and self.fn.cls.startswith("FEAT::LAFEM::Arch::") and n.get("cdecl") in self.by_decl:
+            return self.inline(n, env, pc)      # helper of the same Arch struct called by a kernel
+        if callee == "std::isnan" and len(n.get("a", [])) == 1:
+            v = self.scalar(self.rv(self.ev(n["a"][0], env, pc), pc), pc)
+            return self.atom("isnan(%s)" % sp.sstr(sexp(v)))
         if callee.startswith("FEAT::LAFEM::Arch::"):
             vals = []
             for a in n.get("a", []):
@@ -516,19 +539,26 @@ class Exec:
             raise Incomplete("inlining depth")
         env2 = {}
         for p, a in zip(f.params, n.get("a", [])):
-            env2[p["d"]] = self.rv(self.ev(a, env, pc), pc)
-        saved = (self.cur_fn, self.loops)
-        self.cur_fn, self.loops = f, []
+            val = self.rv(self.ev(a, env, pc), pc)
+            pty = f.type(p["t"]).replace("const", "").strip()
+            if isinstance(val, Cell) and not pty.endswith("&") and not pty.endswith("*") and not re.search(r"Tiny::|ValueType", pty):
+                val = self.read(val, pc)
+            env2[p["d"]] = val
+            self.env_pc[p["d"]] = pc
+        if len(f.params) != len(n.get("a", [])):
+            raise Incomplete("call of %s with default arguments" % f.name)
+        saved = (self.cur_fn, self.frame_base)
+        self.cur_fn, self.frame_base = f, len(self.loops)
         self.inline_depth += 1
-        if saved[1]:
-            raise Incomplete("call to %s inside a loop" % f.name)
+        outer_ret = self.retval
         try:
             self.retval = None
             self.block(f.body, env2, pc, top=True)
             return self.retval
         finally:
+            self.retval = outer_ret
             self.inline_depth -= 1
-            self.cur_fn, self.loops = saved
+            self.cur_fn, self.frame_base = saved
 
     # ---- statements ----------------------------------------------------------------------------
     def block(self, n, env, pc, top=False):
@@ -571,7 +601,7 @@ class Exec:
         if k == "For":
             return self.loop(n, env, pc)
         if k == "Return":
-            if self.loops:
+            if len(self.loops) > self.frame_base:
                 raise Incomplete("return inside a loop")
             if n.get("e") is not None:
                 self.retval = self.rv(self.ev(n["e"], env, pc), pc)
@@ -606,10 +636,36 @@ class Exec:
         lo = sexp(self.scalar(self.rv(self.ev(var["init"], env, pc), pc), pc))
         if not (c and c.get("k") == "Bin" and c["op"] in ("<", "<=", "!=") and c["lhs"].get("k") == "Ref" and c["lhs"].get("d") == d):
             raise Incomplete("loop condition %s" % render(c))
-        ok_inc = inc and ((inc.get("k") == "Un" and inc["op"] == "++" and inc["e"].get("d") == d) or
-                          (inc.get("k") == "Assign" and inc["op"] == "+=" and inc["lhs"].get("d") == d and inc["rhs"].get("k") == "Int" and inc["rhs"]["v"] == "1"))
-        if not ok_inc:
+        incs = []
+
+        def split(x):
+            if x is not None and x.get("k") == "Bin" and x.get("op") == ",":
+                split(x["lhs"])
+                split(x["rhs"])
+            elif x is not None:
+                incs.append(x)
+        split(inc)
+
+        def is_step(x, dd):
+            return ((x.get("k") == "Un" and x["op"] == "++" and x["e"].get("d") == dd) or
+                    (x.get("k") == "Assign" and x["op"] == "+=" and x["lhs"].get("d") == dd and x["rhs"].get("k") == "Int" and x["rhs"]["v"] == "1"))
+        main = [x for x in incs if is_step(x, d)]
+        ptrs = []      # pointers advanced in lock-step with the loop variable: p == p0 + (i - lo) in iteration i
+        for x in incs:
+            if x in main:
+                continue
+            tgt = (x.get("e") or x.get("lhs") or {})
+            dd = tgt.get("d")
+            if tgt.get("k") == "Ref" and dd in env and isinstance(env[dd], Arr) and is_step(x, dd):
+                ptrs.append(dd)
+            else:
+                raise Incomplete("loop increment %s" % render(x))
+        if len(main) != 1:
             raise Incomplete("loop increment %s" % render(inc))
+        for x in walk(n["body"]):
+            if x.get("k") in ("Assign", "Un") and (x.get("lhs") or x.get("e") or {}).get("d") in ptrs and x.get("op") in ("=", "+=", "-=", "++", "--"):
+                raise Incomplete("pointer advanced by the loop header is also modified in the body")
+        pbase = {dd: env[dd] for dd in ptrs}
         for x in walk(n["body"]):
             if x.get("k") in ("Assign", "Un") and (x.get("lhs") or x.get("e") or {}).get("d") == d and x.get("op") in ("=", "+=", "-=", "++", "--"):
                 raise Incomplete("loop variable modified in the body")
@@ -622,6 +678,8 @@ class Exec:
             brk = [sp.false]   # condition under which an earlier iteration left the loop by `break`
             for val in range(int(lo), int(hi)):
                 env[d] = sp.Integer(val)
+                for dd in ptrs:
+                    env[dd] = pbase[dd].shifted(val - int(lo))
                 pci = pc if brk[0] is sp.false else sp.simplify_logic(sp.And(pc, sp.Not(brk[0])))
                 if pci is sp.false:
                     break
@@ -630,6 +688,10 @@ class Exec:
                     self.block(n["body"], env, pci)
                 finally:
                     self.loops.pop()
+            for dd in ptrs:
+                if brk[0] is not sp.false:
+                    raise Incomplete("pointer advanced by a loop that can be left by break")
+                env[dd] = pbase[dd].shifted(max(0, int(hi) - int(lo)))
             return pc
         name = var["n"]
         active = {str(lp["sym"]) for lp in self.loops if lp["symbolic"]}
@@ -637,6 +699,8 @@ class Exec:
             name += "_"
         s = isym(name)
         env[d] = s
+        for dd in ptrs:
+            env[dd] = pbase[dd].shifted(s - lo)
         inner = {v["d"] for x in walk(n["body"]) if x.get("k") == "Decl" for v in x["vars"]}
         outer = {x for x in env if x not in inner and x != d}
         # `break` in a symbolic loop: the generic iteration i runs iff no earlier iteration i' < i left the loop; that fact is a
@@ -671,6 +735,10 @@ class Exec:
             self.block(n["body"], env, pc if exit_atom is None else sp.And(pc, sp.Not(exit_atom)))
         finally:
             self.loops.pop()
+        for dd in ptrs:
+            if exit_atom is not None:
+                raise Incomplete("pointer advanced by a loop that can be left by break")
+            env[dd] = pbase[dd].shifted(hi - lo)
         return pc
 
     def dead_in_range(self, cond, s, lo, hi):
@@ -813,20 +881,65 @@ def final_value(stores, asg):
     stored, val = False, None
     for s in stores:
         if holds(s["pc"], asg):
-            stored, val = True, fold(s["val"], asg)
+            nv = fold(s["val"], asg)
+            own = sp.Function(s["arr"])(*s["idx"]) if not stored else val
+            if isinstance(nv, sp.Basic) and sp.expand(nv - own) == 0:
+                continue          # writes back what the cell already holds: no effect
+            stored, val = True, nv
     return stored, val
 
 
 def reads_array(stores, name):
+    """does a stored value (other than the cell's own old value, which is a no-op) or a guard depend on the written array?"""
+    def has(e):
+        if not isinstance(e, sp.Basic):
+            return False
+        if any(f.func.__name__ == name for f in e.atoms(sp.Function) if hasattr(f.func, "__name__")):
+            return True
+        return any(("%s(" % name) in str(a) for a in e.free_symbols if str(a).startswith("isnan(") or str(a).startswith("("))
     for s in stores:
-        for e in (s["val"], s["pc"]):
-            if isinstance(e, sp.Basic):
-                for f in e.atoms(sp.Function):
-                    if f.func.__name__ == name:
-                        return True
-                for a in e.free_symbols:
-                    if ("isnan(%s(" % name) in str(a):
-                        return True
+        own = sp.Function(s["arr"])(*s["idx"])
+        val = s["val"]
+        branches = [val]
+        if isinstance(val, sp.Piecewise):
+            branches = [b for b, _ in val.args]
+            if any(has(c) for _, c in val.args if isinstance(c, sp.Basic)):
+                return True
+        for b in branches:
+            if isinstance(b, sp.Basic) and sp.expand(b - own) == 0:
+                continue
+            if has(b):
+                return True
+        if has(s["pc"]):
+            return True
+    return False
+
+
+def is_zero(e):
+    """True/False for e == 0 identically; raises Incomplete when simplification fails but numeric probes vanish"""
+    import random
+    if e == 0:
+        return True
+    r = sp.simplify(e)
+    if r == 0:
+        return True
+    from sympy.core.function import AppliedUndef
+    opaque = sorted(r.atoms(AppliedUndef), key=str)
+    outer = [f for f in opaque if not any(f is not g and f in g.atoms(AppliedUndef) for g in opaque)]
+    r = r.subs({f: sp.Symbol("_t%d" % n_, real=True) for n_, f in enumerate(outer)})
+    syms = sorted(r.free_symbols, key=str)
+    rnd = random.Random(7)
+    small = 0
+    for _ in range(4):
+        pt = {x: sp.Rational(rnd.randint(2, 19), rnd.randint(2, 7)) * rnd.choice((1, -1) if not x.is_positive else (1,)) for x in syms}
+        try:
+            val = abs(complex(r.subs(pt).evalf()))
+        except Exception:
+            raise Incomplete("expression %s could not be evaluated" % r)
+        if val < 1e-9:
+            small += 1
+    if small == 4:
+        raise Incomplete("expression %s vanishes at all probes but could not be simplified to 0" % r)
     return False
 
 
@@ -866,39 +979,54 @@ def kernel_summary(facts, fn, by_decl):
     ks.bs = int(m.group(1)) if m else 1
     ex = Exec(facts, fn, by_decl).run()
     ks.ex = ex
+    from sympy.core.function import AppliedUndef
     ks.footprint, ks.coverage = [], []
     ks.cells = {}
     ks.isym = None
     if ex.events:
         raise Incomplete("kernel %s calls %s" % (fn.full, ex.events[0].get("callee")))
+    ks.unknown = []
+    ranges = set()
     for s in ex.stores:
         where = "line %s: %s[%s]" % (s["l"], s["arr"], ", ".join(str(i) for i in s["idx"]))
         if s["arr"] != "v":
             ks.footprint.append("%s: store to array '%s' (only the filtered vector v may be written)" % (where, s["arr"]))
             continue
         e = s["idx"][0]
-        idxs = [f for f in e.atoms(sp.Function) if f.func.__name__ == "sv_indices"]
+        reads = [f for f in e.atoms(AppliedUndef)]
+        idxs = [f for f in reads if f.func.__name__ == "sv_indices"]
         if len(s["idx"]) != 1 or len(idxs) != 1:
-            ks.footprint.append("%s: position is not derived from exactly one sv_indices[.] entry" % where)
+            if not reads and len(s["idx"]) == 1:
+                ks.footprint.append("%s: position is computed from loop counters only, not from an sv_indices[.] entry: dofs that are not constrained are written" % where)
+            else:
+                ks.unknown.append("%s: position is not recognisably derived from one sv_indices[.] entry" % where)
             continue
         S = idxs[0]
         c = sp.expand(e - ks.bs * S)
-        if not c.is_Integer or not (0 <= int(c) < ks.bs):
-            ks.footprint.append("%s: position is not %d*sv_indices[i]+c with 0<=c<%d (offset %s): entries of other (unconstrained) dofs are written" % (where, ks.bs, ks.bs, c))
+        if not c.is_Integer:
+            ks.unknown.append("%s: position is not of the form %d*sv_indices[.]+const (remainder %s)" % (where, ks.bs, c))
+            continue
+        if not (0 <= int(c) < ks.bs):
+            ks.footprint.append("%s: position is %d*sv_indices[i]%+d, outside the block of the constrained dof (0<=c<%d): entries of other dofs are written" % (where, ks.bs, int(c), ks.bs))
             continue
         it = S.args[0]
         lp = sym_loop(s, it) if isinstance(it, sp.Symbol) else None
         if lp is None:
-            ks.footprint.append("%s: sv_indices is not subscripted by a loop variable (%s)" % (where, it))
+            ks.unknown.append("%s: sv_indices is not subscripted by a plain loop variable (%s)" % (where, it))
             continue
-        if not (lp["lo"] == 0 and lp["hi"] == isym("ue")):
-            ks.coverage.append("%s: loop over the filter entries runs over [%s,%s) instead of [0,ue)" % (where, lp["lo"], lp["hi"]))
+        ranges.add((lp["lo"], lp["hi"]))
         ks.isym = it
         ks.cells.setdefault(int(c), []).append(s)
+    if len(ranges) == 1:
+        lo_, hi_ = next(iter(ranges))
+        if not (lo_ == 0 and hi_ == isym("ue")):
+            ks.coverage.append("the loop over the filter entries runs over [%s,%s) instead of [0,ue)" % (lo_, hi_))
+    elif len(ranges) > 1:
+        ks.unknown.append("the filter entries are processed by loops over different ranges %s (split loop): coverage of [0,ue) not decided" % sorted(str(r) for r in ranges))
     if not ex.stores:
         ks.coverage.append("kernel performs no store at all")
     for c in range(ks.bs):
-        if c not in ks.cells and ks.cells:
+        if c not in ks.cells and ks.cells and not ks.unknown:
             ks.coverage.append("component %d of the constrained block is never stored" % c)
     ks.reads_v = reads_array(ex.stores, "v")
     return ks
@@ -910,6 +1038,8 @@ def unit_form_problems(ks, kind):
     ex = ks.ex
     names = [p["n"] for p in ks.fn.params]
     i = ks.isym
+    if ks.unknown:
+        raise Incomplete("store positions of %s not recognised" % ks.fn.full)
     if i is None:
         return ["no constrained entry is stored"]
     for c in range(ks.bs):
@@ -941,15 +1071,15 @@ def projection_identities(f, vs, ns):
     """problems of the map v -> f(v) (list of sympy expressions in vs, ns) as the orthogonal projection along ns"""
     probs = []
     bs = len(vs)
-    ndot = sp.simplify(sum(a * b for a, b in zip(f, ns)))
-    if ndot != 0:
-        probs.append("normal component after filtering is %s (must vanish identically)" % ndot)
-    ff = [sp.simplify(e.subs(dict(zip(vs, f)), simultaneous=True) - e) for e in f]
-    if any(x != 0 for x in ff):
-        probs.append("applying the update twice differs from applying it once by %s" % [str(x) for x in ff if x != 0][:1])
-    d = [sp.simplify(a - b) for a, b in zip(f, vs)]
-    cross = [sp.simplify(d[a] * ns[b] - d[b] * ns[a]) for a in range(bs) for b in range(a + 1, bs)]
-    if any(x != 0 for x in cross):
+    ndot = sum(a * b for a, b in zip(f, ns))
+    if not is_zero(ndot):
+        probs.append("normal component after filtering is %s (must vanish identically)" % sp.simplify(ndot))
+    ff = [e.subs(dict(zip(vs, f)), simultaneous=True) - e for e in f]
+    if any(not is_zero(x) for x in ff):
+        probs.append("applying the update twice differs from applying it once by %s" % [str(sp.simplify(x)) for x in ff if not is_zero(x)][:1])
+    d = [a - b for a, b in zip(f, vs)]
+    cross = [d[a] * ns[b] - d[b] * ns[a] for a in range(bs) for b in range(a + 1, bs)]
+    if any(not is_zero(x) for x in cross):
         probs.append("the change f(v)-v is not parallel to the normal: tangential components are modified")
     return probs
 
@@ -1101,7 +1231,8 @@ def matrix_summary(facts, fn, by_decl):
         raise Incomplete("%s: matrix type %s not modelled" % (fn.full, ty))
     ex = Exec(facts, fn, by_decl).run()
     ms.ex = ex
-    ms.footprint, ms.coverage = [], []
+    from sympy.core.function import AppliedUndef
+    ms.footprint, ms.coverage, ms.unknown = [], [], []
     ms.cells = {}
     ms.i = ms.j = ms.ix = None
     ms.sv = None
@@ -1114,29 +1245,44 @@ def matrix_summary(facts, fn, by_decl):
             ms.footprint.append("%s: store to '%s' (only the values of the filtered matrix may be written)" % (where, s["arr"]))
             continue
         j = s["idx"][0]
-        lp = sym_loop(s, j) if isinstance(j, sp.Symbol) else None
+        # position = (loop variable t) + base: effective range [lo+base, hi+base)
+        tsyms = [lp_ for lp_ in s["loops"] if lp_["symbolic"] and lp_["sym"] in j.free_symbols]
+        lp = None
+        for cand in tsyms:
+            if sp.expand(j.diff(cand["sym"]) - 1) == 0 and cand["sym"] not in sp.expand(j - cand["sym"]).free_symbols:
+                lp = cand
         if lp is None:
-            ms.footprint.append("%s: value position is not a loop variable over a row segment" % where)
+            ms.unknown.append("%s: value position is not (loop variable)+offset" % where)
             continue
-        lo, hi = lp["lo"], lp["hi"]
+        base = sp.expand(j - lp["sym"])
+        lo, hi = sp.expand(lp["lo"] + base), sp.expand(lp["hi"] + base)
         ok = fname(lo) == RP and fname(hi) == RP
         if not ok or sp.expand(hi.args[0] - lo.args[0] - 1) != 0:
-            ms.footprint.append("%s: position runs over [%s,%s), not over the row segment [row_ptr[ix],row_ptr[ix+1]) of the same matrix" % (where, lo, hi))
+            terms = [f for f in (lo.atoms(AppliedUndef) | hi.atoms(AppliedUndef))]
+            rp_like = terms and all(f.func.__name__ == RP or re.match(r"^this\.\w+\.indices$", f.func.__name__) for f in terms)
+            if rp_like:
+                ms.footprint.append("%s: position runs over [%s,%s), not over the row segment [row_ptr[ix],row_ptr[ix+1]) of the matrix" % (where, lo, hi))
+            else:
+                ms.unknown.append("%s: position range [%s,%s) is not expressed through %s" % (where, lo, hi, RP))
             continue
         ix = lo.args[0]
         mm = re.match(r"^this\.(\w+)\.indices$", fname(ix) or "")
         if not mm:
-            ms.footprint.append("%s: filtered row %s is not an entry of the filter's own index array" % (where, ix))
+            if not ix.atoms(AppliedUndef):
+                ms.footprint.append("%s: filtered row %s is a loop counter, not an entry of the filter's index array: unconstrained rows are overwritten" % (where, ix))
+            else:
+                ms.unknown.append("%s: filtered row %s is not recognisably an entry of the filter's own index array" % (where, ix))
             continue
         it = ix.args[0]
         lpi = sym_loop(s, it) if isinstance(it, sp.Symbol) else None
         if lpi is None:
-            ms.footprint.append("%s: index array is not subscripted by a loop variable" % where)
+            ms.unknown.append("%s: index array is not subscripted by a plain loop variable" % where)
             continue
         sv = mm.group(1)
         if not (lpi["lo"] == 0 and lpi["hi"] == isym("this.%s.used_elements" % sv)):
             ms.coverage.append("%s: loop over the filter entries runs over [%s,%s) instead of [0,%s.used_elements())" % (where, lpi["lo"], lpi["hi"], sv))
         ms.i, ms.j, ms.ix, ms.sv = it, j, ix, sv
+        ms.jsub = lp["sym"]
         ms.cells.setdefault(tuple(int(x) if x.is_Integer else x for x in s["idx"][1:]), []).append(s)
     if not ex.stores:
         ms.coverage.append("method performs no store at all")
@@ -1154,7 +1300,9 @@ def unit_row_problems(ms, kind):
     probs = []
     ex = ms.ex
     if ms.j is None:
-        return ["no matrix entry of a constrained row is stored"]
+        if ms.footprint or ms.unknown:
+            return []          # reported by E2.footprint / as analysis-incomplete
+        return ["no matrix entry of a constrained row is stored (the method has no effect)"]
     col_eq = ex.cmp("==", sp.Function(ms.p + ".col_ind")(ms.j), ms.ix)
     if ms.bh is None or (ms.bh == 1 and all(len(c) == 0 for c in ms.cells)):
         cells = [()]
@@ -1218,8 +1366,10 @@ def dispatcher_targets(dfn, by_decl):
         if c.get("ccls") == struct and re.search(r"_(generic|cuda|mkl)$", cal):
             fw.append(c)
             for pn, a in zip(c.get("pn", []), c.get("a", [])):
-                if not (a.get("k") == "Ref" and a.get("dk") == "param" and a.get("n") == pn):
-                    probs.append("line %s: %s receives '%s' in parameter slot '%s'" % (c.get("l"), cal.rsplit("::", 1)[-1], render(a), pn))
+                if a.get("k") == "Ref" and a.get("dk") == "param" and a.get("n") in own and a.get("n") != pn:
+                    probs.append("line %s: %s receives the dispatcher's '%s' in parameter slot '%s'" % (c.get("l"), cal.rsplit("::", 1)[-1], render(a), pn))
+                elif not (a.get("k") == "Ref" and a.get("dk") == "param" and a.get("n") == pn):
+                    raise Incomplete("dispatcher %s passes %s for slot '%s'" % (dfn.full, render(a), pn))
             t = by_decl.get(c.get("cdecl"))
             if t is None:
                 raise Incomplete("kernel %s called by %s has no body in the fact base" % (c.get("cfull"), dfn.full))
@@ -1232,7 +1382,7 @@ def dispatcher_targets(dfn, by_decl):
         raise Incomplete("no CFG for %s" % dfn.full)
     ok, bad = dfn.cfg.must_pass(lambda n: n.get("i") in ids)
     if not ok:
-        probs.append("a path through the dispatcher reaches its exit without calling any kernel")
+        raise Incomplete("a path through dispatcher %s reaches its exit without calling a kernel (early-out not modelled)" % dfn.full)
     return targets, probs
 
 
@@ -1243,14 +1393,22 @@ def method_summary(facts, fn, by_decl):
     return ex
 
 
-def guard_problems(pc, what):
+def guard_problems(pc, what, ex=None):
     """pc must hold whenever there is something to filter; -> (violations, incompletes)"""
     viol, inc = [], []
     atoms = atoms_of(pc)
     free = [a for a in atoms if not BENIGN_FALSE.match(str(a)) and not BENIGN_TRUE.match(str(a))]
+
+    def count_threshold(a):
+        """atom compares the filter's own entry count with a number (e.g. used_elements() > 1)"""
+        info = ex.atom_info.get(a) if ex is not None else None
+        if not info or info[0] not in ("zero", "pos"):
+            return False
+        fs = info[1].free_symbols
+        return len(fs) == 1 and re.match(r"^this\.\w+\.(used_elements|size)$", str(next(iter(fs)))) is not None
     for asg in assignments(atoms):
         if not holds(pc, asg):
-            if free and all(re.search(r"used_elements|\.size\b", str(a)) for a in free):
+            if free and all(count_threshold(a) for a in free):
                 viol.append("%s is additionally guarded by %s: filters whose entry count falsifies the guard are silently not applied" % (what, [str(a) for a in free]))
             elif free:
                 inc.append("%s is guarded by %s, which is not an understood 'nothing to filter' test" % (what, [str(a) for a in free]))
@@ -1268,6 +1426,13 @@ def slot_problems(ev, vecparam, ex):
             inc.append("kernel parameter '%s' has no entry in the role table" % pn)
             continue
         owner, acc = SLOT[pn]
+        if isinstance(val, Arr) and val.off != 0:
+            inc.append("slot '%s' receives a shifted pointer %s" % (pn, val))
+            continue
+        recognised = isinstance(val, Arr) or isinstance(val, Obj) or (isinstance(val, sp.Symbol) and re.match(r"^(this\.)?\w+(\.\w+)*$", str(val)))
+        if not recognised:
+            inc.append("argument %s for slot '%s' is not an accessor of the vector or of a member of the filter" % (val, pn))
+            continue
         if owner == "vec":
             if not (isinstance(val, Arr) and val.name == "%s.%s" % (vecparam, acc)):
                 probs.append("slot '%s' receives %s instead of %s.%s() of the vector being filtered" % (pn, val, vecparam, acc))
@@ -1317,8 +1482,10 @@ def mean_problems(facts, fn, by_decl):
     axs = [e for e in ex.events if e["kind"] == "axpy"]
     if len(ex.events) != len(axs):
         raise Incomplete("%s calls a LAFEM::Arch kernel directly" % fn.full)
-    if len(axs) != 1:
-        return ["the vector is updated %d times (exactly one axpy with the weighting vector is expected)" % len(axs)], inc
+    if len(axs) == 0:
+        return ["the method has no effect on the vector (no axpy with a weighting vector), although the filter is not empty"], inc
+    if len(axs) > 1:
+        raise Incomplete("%s updates the vector %d times; the combined effect is not modelled" % (fn.full, len(axs)))
     e = axs[0]
     dot_m, add_m = MEAN_ROLE[fn.name]
     if e["recv"] != vec:
@@ -1355,7 +1522,10 @@ def mean_problems(facts, fn, by_decl):
         if not holds(e["pc"], asg):
             pcatoms = atoms_of(e["pc"])
             if not any(asg[a] for a in pcatoms if a in empty_atoms):
-                probs.append("case {%s}: the update is skipped although the filter is not empty" % asg_str(asg))
+                if all(a in empty_atoms for a in pcatoms):
+                    probs.append("case {%s}: the update is skipped although the filter is not empty" % asg_str(asg))
+                else:
+                    inc.append("the update is guarded by %s, which is not an emptiness test" % sorted(str(a) for a in pcatoms if a not in empty_atoms))
                 break
             continue
         stop = False
@@ -1363,6 +1533,9 @@ def mean_problems(facts, fn, by_decl):
             a = fold(alphas[c], asg)
             if not isinstance(a, sp.Expr):
                 raise Incomplete("%s: axpy factor %r" % (fn.full, a))
+            P_, Q_ = sorted([sp.Symbol("this._vec_prim"), sp.Symbol("this._vec_dual")], key=str)
+            volsym = sp.Symbol("this._volume")
+            a = a.subs({sp.Function("dot")(P_, Q_): volsym, sp.Function("dot_blocked")(P_, Q_): volsym})
             fs = a.atoms(AppliedUndef)
             outer = [f for f in fs if not any(f in g.args or any(f in h.atoms(AppliedUndef) for h in g.args) for g in fs if g is not f)]
             integ = [f for f in outer if fname(f) in ("dot", "dot_blocked", "allsum", "triple_dot", "triple_dot_blocked") or (fname(f) == "comp" and fname(f.args[0]) in ("dot_blocked", "triple_dot_blocked", "allsum"))]
@@ -1406,12 +1579,12 @@ def mean_problems(facts, fn, by_decl):
             mean = sp.Symbol("this._sol_mean") if c is None else sp.Function("comp")(sp.Symbol("this._sol_mean"), sp.Integer(c))
             a2 = a.subs(T, D)
             c0 = sp.simplify(a2.subs(D, 0))
-            if sp.simplify(a2 - (c0 - D / vol)) != 0 or D in c0.free_symbols:
+            if D in c0.free_symbols or not is_zero(a2 - (c0 - D / vol)):
                 probs.append("%s: the axpy factor is %s; with <prim,dual>=_volume the filtered vector has the prescribed mean (and a second application changes nothing) only if the factor is c - D/_volume" % (case, a2))
                 stop = True
                 break
             want0 = mean if (fn.name == "filter_sol" and base_name(fn.cls) in HAS_SOL_MEAN) else sp.Integer(0)
-            if sp.simplify(c0 - want0) != 0:
+            if not is_zero(c0 - want0):
                 probs.append("%s: constant part of the factor is %s, expected %s" % (case, c0, want0))
                 stop = True
                 break
@@ -1498,6 +1671,25 @@ def map_problems(fn, by_decl):
                 ok_c = len(it_side) == 1 and len(end_side) == 1
             inc_ = lp.get("inc") or {}
             ok_inc = inc_.get("k") == "OpCall" and inc_.get("op") == "++" and inc_["a"][0].get("d") == var.get("d")
+            idx_loop = False
+            if not (ok_init and ok_c and ok_inc):
+                okI = init.get("k") == "Decl" and ini.get("k") in ("Int", "Cast") and render(ini).rstrip(")").endswith("0")
+                okC = c.get("k") == "Bin" and c.get("op") in ("<", "!=") and (c.get("lhs") or {}).get("d") == var.get("d") and (c.get("rhs") or {}).get("k") == "MCall" and c["rhs"].get("n") == "size" and (c["rhs"].get("obj") or {}).get("k") == "This" and not c["rhs"].get("a")
+                okS = (inc_.get("k") == "Un" and inc_.get("op") == "++" and (inc_.get("e") or {}).get("d") == var.get("d"))
+                idx_loop = bool(okI and okC and okS)
+            if idx_loop:
+                o = call.get("obj") or {} if call.get("k") == "MCall" else {}
+                bb = o.get("b") or {}
+                at_ok = o.get("k") == "Member" and o.get("n") == "second" and (
+                    (bb.get("k") == "MCall" and bb.get("n") in ("at", "operator[]") and (bb.get("obj") or {}).get("k") == "This" and len(bb.get("a", [])) == 1 and bb["a"][0].get("d") == var.get("d")) or
+                    (bb.get("k") == "OpCall" and bb.get("op") == "[]" and len(bb.get("a", [])) == 2 and bb["a"][1].get("d") == var.get("d")))
+                if not (call.get("k") == "MCall" and call.get("n", "").startswith("filter_") and at_ok):
+                    return viol, ["%s: index loop body is not `this->at(i).second.filter_X(vector)` (%s)" % (fn.full, render(call)[:80])], 0
+                if call["n"] != fn.name:
+                    viol.append("line %s: %s applies %s of every sub-filter (method parity broken)" % (call.get("l"), fn.name, call["n"]))
+                if len(call.get("a", [])) != 1 or arg_label(call["a"][0], pd) != "whole":
+                    viol.append("line %s: sub-filters are applied to %s instead of the vector being filtered" % (call.get("l"), render(call["a"][0]) if call.get("a") else "nothing"))
+                return viol, inc, 1
             if not (ok_init and ok_c and ok_inc):
                 return viol, ["%s: loop is not `for(it = begin(); it != end(); ++it)` over the filter's own container (%s; %s; %s)" % (fn.full, render(init), render(c), render(inc_))], 0
             elem_d = var.get("d")
@@ -1545,6 +1737,8 @@ def map_problems(fn, by_decl):
             seen.append(rl)
         else:
             inc.append("%s: statement `%s` is not a component call" % (fn.full, render(s)[:80]))
+    if inc:
+        return viol, inc, len(seen)      # an unmodelled statement may filter the missing component: no 'missing' verdict
     for cpt in comps:
         if seen.count(cpt) == 0:
             viol.append("component '%s' is never filtered by %s" % (cpt, fn.name))
@@ -1643,6 +1837,8 @@ def analyse(ck, facts, prefix, driver):
                 continue
             kernels[f.d["decl"]] = ks
             bf, bl = body_file(f), body_line(f)
+            for u in ks.unknown:
+                ck.incomplete("E2.footprint", "%s: %s" % (key, u))
             ck.ob("E2.footprint", key, not ks.footprint, "; ".join(ks.footprint[:3]) or "all %d stores go to v[%s*sv_indices[i]+c], 0<=c<%d" % (len(ks.ex.stores), ks.bs, ks.bs), bf, bl,
                   sample={"stores": ["%s[%s] = %s if %s" % (s["arr"], s["idx"][0], s["val"], s["pc"]) for s in ks.ex.stores[:4]]})
             ck.ob("E2.coverage", key, not ks.coverage, "; ".join(ks.coverage[:3]) or "i over [0,ue), components 0..%d stored" % (ks.bs - 1), bf, bl)
@@ -1661,6 +1857,8 @@ def analyse(ck, facts, prefix, driver):
             ms = guarded("E2.footprint", key, f, lambda: matrix_summary(facts, f, by_decl))
             if ms is None:
                 continue
+            for u in ms.unknown:
+                ck.incomplete("E2.footprint", "%s: %s" % (key, u))
             ck.ob("E2.footprint", key, not ms.footprint, "; ".join(ms.footprint[:3]) or "stores only to %s.val()[j...], j in the row segment of rows %s" % (ms.p, ms.ix), f.file, body_line(f))
             ck.ob("E2.coverage", key, not ms.coverage, "; ".join(ms.coverage[:3]) or "all filter entries, whole row segment", f.file, body_line(f))
             ck.ob("E5.idempotent-form", key, not ms.reads_val, "a stored value or guard reads the matrix values being written" if ms.reads_val else "stored values and guards do not read the matrix values", f.file, body_line(f))
@@ -1712,12 +1910,15 @@ def analyse(ck, facts, prefix, driver):
             ck.incomplete("E7.role-kernel", "%s: vector updated by %s outside a filter kernel" % (key, [e.get("name") for e in ex.events if e["kind"] != "arch"]))
             continue
         if not arch:
-            probs.append("no filter kernel is reached: the vector is returned unfiltered")
+            probs.append("no filter kernel is reached and nothing else is done with the vector: it is returned unfiltered")
         elif len(arch) > 1:
-            probs.append("%d kernel calls are reached (%s); exactly one is expected" % (len(arch), ", ".join(e["callee"].rsplit("::", 2)[-1] + "@%s" % e["l"] for e in arch)))
+            sig = {(e["cdecl"], str(e["pc"]), tuple(str(a) for a in e["args"])) for e in arch}
+            if len(sig) > 1:
+                ck.incomplete("E7.role-kernel", "%s: %d different kernel calls are reached (%s); their combined effect is not modelled" % (key, len(arch), ", ".join(e["callee"].rsplit("::", 2)[-1] + "@%s" % e["l"] for e in arch)))
+                continue
         slot_p, incs = [], []
         for ev in arch[:1]:
-            v_, i_ = guard_problems(ev["pc"], "the kernel call at line %s" % ev["l"])
+            v_, i_ = guard_problems(ev["pc"], "the kernel call at line %s" % ev["l"], ex)
             probs += v_
             incs += i_
             sp_, i2 = slot_problems(ev, vec, ex)
@@ -1786,6 +1987,8 @@ def analyse(ck, facts, prefix, driver):
                 ck.incomplete("E4.map", x)
             if i_ and not v_:
                 continue
+            if i_:
+                n_ = n_      # definite parity / sub-vector violations of recognised calls are still reported
             ck.ob("E4.map", key, not v_, "; ".join(v_[:3]) or "%d component call(s), same method, matching sub-vector" % n_, f.file, f.line)
 
     return
